@@ -18,7 +18,8 @@ RULE = ('random histories of 2-5 try blocks per run (undo/stop, inside loops, le
         'operands, infinite loops inside try bodies; each at word sizes 2,3,4, checked and unchecked; non-trivial = the '
         'model needed >= 1 backtrack and executed >= 2 try blocks, or a preempt was forced, or a ?? left side was '
         'skipped; distinct by hash of (source, args); plus the enumerated ?? grid of gen/idioms.py (7 left x 8 right operand '
-        'kinds in 13 expression positions, 5 argument vectors) and the preempt-placement / return-expression grid of gen/faultgrid.py')
+        'kinds in 13 expression positions, 5 argument vectors) and the preempt-placement / return-expression grid of gen/faultgrid.py; the enumerated try-block histories of gen/idioms.py '
+        '(196 ordered pairs of try blocks by kind and defeat source, 128 try-in-loop programs by body and handler exit route)')
 ASSUMPTIONS = common.ISA_ASSUMPTIONS
 REQUIRED_HIDC_FUNCTIONS = ['codegen/generator:CodeGen.gen_block', 'codegen/generator:CodeGen.truth_is_defeat']     # M-COV: deciding code never entered => inconclusive
 MIN_NONTRIVIAL = {'quick': 100, 'thorough': 1000}
@@ -31,6 +32,7 @@ def plan(tier, seed):
     specs.append({'kind': 'upstream'})
     specs += [{'kind': 'specgrid', 'part': i, 'parts': 4} for i in range(4)]
     specs += [{'kind': 'nonlocal', 'part': i, 'parts': 4} for i in range(4)]
+    specs += [{'kind': 'history', 'part': i, 'parts': 8, 'tier': tier} for i in range(8)]
     specs += [{'kind': 'examples', 'seed': seed * 100 + j} for j in range(4 if tier == 'quick' else 16)]
     return specs
 
@@ -104,6 +106,14 @@ def run_shard(spec):
         return res
     if spec['kind'] == 'examples':
         run_examples(res, spec['seed'])
+        return res
+    if spec['kind'] == 'history':
+        rng = random.Random(0)
+        for k, (tag, prog) in enumerate(idioms.history_programs()):
+            if k % spec['parts'] == spec['part']:
+                argsets = idioms.HISTORY_ARGS if spec['tier'] != 'quick' else [idioms.HISTORY_ARGS[(k // 8) % 4], idioms.HISTORY_ARGS[(k // 8 + 1 + k % 3) % 4]]
+                for args in argsets:
+                    check_program(res, prog, args, rng, tag)
         return res
     if spec['kind'] == 'nonlocal':
         # preempt placement x caller shape, and return expressions that call defeat functions (the C05 grid, here judged on
